@@ -1214,6 +1214,13 @@ func (a *Assembler) closeHalfConnection(conn *connection, half *halfconnection) 
 		a.pc.replace(p)
 		half.pages--
 	}
+	half.first, half.last = nil, nil
+	// Pages kept for the stream (KeepFrom) are not needed anymore either.
+	for p := half.saved; p != nil; p = next {
+		next = p.next
+		a.pc.replace(p)
+	}
+	half.saved = nil
 
 	if conn.s2c.closed && conn.c2s.closed {
 		if half.stream.ReassemblyComplete(nil) { //FIXME: which context to pass ?
